@@ -418,6 +418,16 @@ macro_rules! sc_alias_ctx {
 sc_alias_ctx!(sc_alias_ctx_a, CtxA, |v, pad, tail| CtxA { pad, f: v, tail }, "A");
 sc_alias_ctx!(sc_alias_ctx_c, CtxC, |v, pad, tail| CtxC { tail, pad, mid: 0x1122_3344_5566_7788, f: v }, "C");
 
+fn record_const_script(t: &str) -> String {
+    format!(
+        "record Rec {{ v: {t}, n: u8 }}\nconst CR: Rec = Rec {{ v: K, n: 7 }};\n\
+         fn field(x: {t}, s: u8) -> {t} {{ if s == 1 {{ note(CR.v); }} CR.v }}\n\
+         fn copy_field(x: {t}, s: u8) -> {t} {{ let r = CR; if s == 1 {{ r.v = x; }} note(r.v); CR.v }}\n\
+         fn whole(x: {t}, s: u8) -> {t} {{ let r = CR; r = Rec {{ v: x, n: s }}; note(r.v); note(CR.v); K }}\n\
+         fn n_(x: {t}, s: u8) -> u8 {{ let r = CR; r.n = s; CR.n }}\n"
+    )
+}
+
 /// a script-defined record constant holding a registered constant: reads of its
 /// fields, a copy of it whose field is assigned to, and the registered constant
 /// itself afterwards
@@ -425,13 +435,7 @@ fn sc_alias_record_const<T: BT>(env: &Env, rep: &mut Report, name: &str) {
     let d = T::desc();
     let t = d.roto();
     let mut p = Prng::for_case(env.seed, h64(name));
-    let src = format!(
-        "record Rec {{ v: {t}, n: u8 }}\nconst CR: Rec = Rec {{ v: K, n: 7 }};\n\
-         fn field(x: {t}, s: u8) -> {t} {{ if s == 1 {{ note(CR.v); }} CR.v }}\n\
-         fn copy_field(x: {t}, s: u8) -> {t} {{ let r = CR; if s == 1 {{ r.v = x; }} note(r.v); CR.v }}\n\
-         fn whole(x: {t}, s: u8) -> {t} {{ let r = CR; r = Rec {{ v: x, n: s }}; note(r.v); note(CR.v); K }}\n\
-         fn n_(x: {t}, s: u8) -> u8 {{ let r = CR; r.n = s; CR.n }}\n"
-    );
+    let src = record_const_script(&t);
     for k in 0..quick_rounds(env, 2, 8) {
         let v = T::gen_val(&mut p, k + 1);
         let x = T::gen_val(&mut p, k + 2);
@@ -472,4 +476,185 @@ fn sc_alias_record_const<T: BT>(env: &Env, rep: &mut Report, name: &str) {
         }
     }
     rep.class(format!("alias:record-constant:{}", d.class()));
+}
+
+// ------------------------------------------------------------------ provenance (tie of Props/C05Store)
+
+/// The real LIR of every generated script (hook `verif_hooks::c05::mem_ops`) against the
+/// provenance check of `Model/BoundaryStore.lean` (`Func.check` with the certificate
+/// `computeTaint`, driver `c05 prov`): pointers derived from `ConstantAddress` / `$context`
+/// are only read through. `Props/C05Store.host_cells_unchanged` then says no execution of
+/// that LIR changes a host cell.
+fn prov_script<C: roto::Context + 'static>(drv: &mut Driver, rep: &mut Report, rt: &Runtime<roto::Ctx<C>>, what: &str, d: &D, src: &str) -> bool {
+    let fns = match std::panic::catch_unwind(std::panic::AssertUnwindSafe(|| roto::verif_hooks::c05::mem_ops(FileTree::test_file("c05.roto", src, 0), rt))) {
+        Ok(Ok(f)) => f,
+        Ok(Err(e)) => {
+            rep.mismatch("a script over boundary types did not compile", json!({"script": src, "error": format!("{e:?}").chars().take(400).collect::<String>()}));
+            return false;
+        }
+        Err(_) => {
+            rep.violation("the compiler panicked on a generated script", &format!("compile-panic:{what}:{}", d.class()), json!({"script": src}));
+            return false;
+        }
+    };
+    prov_fns(drv, rep, &fns, what, d, src)
+}
+fn prov_script0(drv: &mut Driver, rep: &mut Report, rt: &Runtime<NoCtx>, what: &str, d: &D, src: &str) -> bool {
+    let fns = match std::panic::catch_unwind(std::panic::AssertUnwindSafe(|| roto::verif_hooks::c05::mem_ops(FileTree::test_file("c05.roto", src, 0), rt))) {
+        Ok(Ok(f)) => f,
+        Ok(Err(e)) => {
+            rep.mismatch("a script over boundary types did not compile", json!({"script": src, "error": format!("{e:?}").chars().take(400).collect::<String>()}));
+            return false;
+        }
+        Err(_) => {
+            rep.violation("the compiler panicked on a generated script", &format!("compile-panic:{what}:{}", d.class()), json!({"script": src}));
+            return false;
+        }
+    };
+    prov_fns(drv, rep, &fns, what, d, src)
+}
+
+fn prov_fns(drv: &mut Driver, rep: &mut Report, fns: &[roto::verif_hooks::c05::MemFn], what: &str, d: &D, src: &str) -> bool {
+    let mut q = String::from("c05 prov");
+    let mut all_names: Vec<Vec<String>> = vec![];
+    for (fi, f) in fns.iter().enumerate() {
+        // number the variables of this function; `$context` is 0
+        let mut names: Vec<String> = vec!["$context".to_string()];
+        let mut num = |n: &str| -> usize {
+            match names.iter().position(|x| x == n) {
+                Some(i) => i,
+                None => {
+                    names.push(n.to_string());
+                    names.len() - 1
+                }
+            }
+        };
+        if fi > 0 {
+            q.push_str(" |");
+        }
+        q.push_str(&format!(" {fi}"));
+        for p in &f.params {
+            q.push_str(&format!(" {}", num(p)));
+        }
+        for o in &f.ops {
+            q.push_str(" ; ");
+            q.push_str(o.op);
+            let opnd = |x: &Option<String>, num: &mut dyn FnMut(&str) -> usize, absent: &str| match x {
+                Some(n) => format!("v{}", num(n)),
+                None => absent.to_string(),
+            };
+            let to = |num: &mut dyn FnMut(&str) -> usize| match &o.to {
+                Some(t) => format!(" {}", num(t)),
+                None => " -".to_string(),
+            };
+            match o.op {
+                "as" | "ca" | "of" | "rd" | "cm" | "rt" => {
+                    q.push_str(&to(&mut num));
+                    for x in &o.operands {
+                        q.push(' ');
+                        q.push_str(&opnd(x, &mut num, "l"));
+                    }
+                }
+                "cs" => {
+                    q.push_str(&to(&mut num));
+                    let callee = o.callee.as_ref().and_then(|c| fns.iter().position(|g| &g.name == c));
+                    // ctx, callee, return pointer, arguments
+                    q.push(' ');
+                    q.push_str(&opnd(&o.operands.first().cloned().flatten(), &mut num, "l"));
+                    q.push_str(&match callee { Some(i) => format!(" {i}"), None => " -".to_string() });
+                    q.push(' ');
+                    q.push_str(&opnd(&o.operands.get(1).cloned().flatten(), &mut num, "-"));
+                    for x in o.operands.iter().skip(2) {
+                        q.push(' ');
+                        q.push_str(&opnd(x, &mut num, "l"));
+                    }
+                }
+                "re" => {
+                    q.push(' ');
+                    q.push_str(&opnd(&o.operands.first().cloned().flatten(), &mut num, "-"));
+                }
+                _ => {
+                    for x in &o.operands {
+                        q.push(' ');
+                        q.push_str(&opnd(x, &mut num, "l"));
+                    }
+                }
+            }
+        }
+        all_names.push(names);
+    }
+    let ans = drv.ask(&q);
+    if std::env::var("C05_PROV_DEBUG").is_ok_and(|v| v == what || v == format!("{what}:{}", d.roto())) {
+        eprintln!("PROV {what} {}\n  names {:?}\n  {q}\n  -> {ans}", d.roto(), fns.iter().map(|f| (&f.name, &f.params)).collect::<Vec<_>>());
+    }
+    rep.evaluations += 1;
+    if let Some(n) = ans.split(' ').nth(2) {
+        // functions whose certificate lists one of their parameters: a pointer into host cells is handed on to them
+        rep.hist("prov_functions_given_host_pointers", n.to_string());
+    }
+    rep.hist("prov_functions_per_script", (fns.len() / 5 * 5).to_string());
+    if ans.starts_with("ok") {
+        return true;
+    }
+    let w: Vec<&str> = ans.split(' ').collect();
+    let bad_fn = w.get(1).and_then(|s| s.parse::<usize>().ok());
+    let bad_idx = w.get(2).and_then(|s| s.parse::<usize>().ok());
+    let f = bad_fn.and_then(|i| fns.get(i));
+    let tainted: Vec<&String> = match bad_fn.and_then(|i| all_names.get(i)) {
+        Some(names) => {
+            let mut t: Vec<&String> = w.iter().skip(3).filter_map(|s| s.parse::<usize>().ok()).filter_map(|i| names.get(i)).collect();
+            t.dedup();
+            t
+        }
+        None => vec![],
+    };
+    rep.mismatch(
+        "the LIR of a generated script is outside the fragment for which the host's cells are proved unchanged: a pointer derived from a constant's address / the context pointer is written through, stored, handed to Rust code, dropped or returned",
+        json!({"source": what, "type": d.roto(), "function": f.map(|f| f.name.clone()), "instruction_index": bad_idx,
+               "instruction": f.and_then(|f| bad_idx.and_then(|i| f.ops.get(i))).map(|o| format!("{o:?}")), "may_point_into_host_cells": tainted,
+               "model": ans.chars().take(200).collect::<String>(), "script": src}),
+    );
+    false
+}
+
+/// all generated scripts of one type over the constant / argument sources
+fn prov_type<T: BT>(drv: &mut Driver, rep: &mut Report) {
+    let d = T::desc();
+    let t = d.roto();
+    let mut p = Prng::new(7);
+    let mut rt = base_runtime();
+    rt.add(Constant::new("K", "", T::gen_val(&mut p, 1), location!()).unwrap()).unwrap();
+    rt.add(Function::new("note", "", vec!["x"], note::<T>, location!()).unwrap()).unwrap();
+    let mut ok = true;
+    ok &= prov_script0(drv, rep, &rt, "sites-const", &d, &sites_script(&t, "K", "", ""));
+    ok &= prov_script0(drv, rep, &rt, "sites-arg", &d, &sites_script(&t, "x", &format!("x: {t}, "), "x, "));
+    ok &= prov_script0(drv, rep, &rt, "alias-const", &d, &alias_script(&t, "K"));
+    ok &= prov_script0(drv, rep, &rt, "alias-rec", &d, &record_const_script(&t));
+    if ok {
+        rep.class(format!("prov:constant:{}", d.class()));
+    }
+}
+
+/// … and over the context source
+fn prov_ctx_type<T: BT>(drv: &mut Driver, rep: &mut Report) {
+    let d = T::desc();
+    let t = d.roto();
+    let _ = <T as Value>::resolve();
+    let mut rt0 = base_runtime();
+    rt0.add(Function::new("note", "", vec!["x"], note::<T>, location!()).unwrap()).unwrap();
+    let Ok(rt) = rt0.with_context_type::<CtxA<T>>() else { return };
+    let mut ok = true;
+    ok &= prov_script(drv, rep, &rt, "sites-ctx", &d, &sites_script(&t, "f", "", ""));
+    ok &= prov_script(drv, rep, &rt, "alias-ctx", &d, &alias_script(&t, "f"));
+    if ok {
+        rep.class(format!("prov:context:{}", d.class()));
+    }
+}
+
+fn provenance(rep: &mut Report) {
+    let mut drv = Driver::spawn().expect("spawn rotov-driver");
+    macro_rules! a { ($($t:ty);* $(;)?) => { $( prov_type::<$t>(&mut drv, rep); )* } }
+    all_types!(a);
+    macro_rules! c { ($($t:ty);* $(;)?) => { $( prov_ctx_type::<$t>(&mut drv, rep); )* } }
+    ctx_types!(c);
 }
